@@ -218,7 +218,7 @@ def _alarm(signum, frame):
 
 
 def run(ctx, method, sym=(), conc=None, elig=None, record_push=False,
-        path_timeout=None):
+        path_timeout=None, history=None):
   """One execution of the real search inside the current engine path."""
   import signal
   M = ctx.M
@@ -241,8 +241,24 @@ def run(ctx, method, sym=(), conc=None, elig=None, record_push=False,
     out.cells = cells
     try:
       data = M['data'].TBRMMData(ctx.df.copy(), 'sales', ge)
+      if history == 'prior':
+        # the same data object was used before by another search object with
+        # a longer window and no n_geos_max
+        par0 = make_par_concrete(ctx, dict(n_pretest_max=ctx.D + 5))
+        mm0 = M['mm'].TBRMatchedMarkets(data, par0)
+        with np.errstate(all='ignore'):
+          mm0.greedy_search()
       mm = M['mm'].TBRMatchedMarkets(data, par)
       out.mm = mm
+      if history == 'interleave':
+        # first object queried, a second object on the same data searched,
+        # then the first object searched
+        mm.treatment_group_size_range()
+        par0 = make_par_concrete(ctx, dict(n_pretest_max=int(
+            par.n_pretest_max)))
+        mm0 = M['mm'].TBRMatchedMarkets(data, par0)
+        with np.errstate(all='ignore'):
+          mm0.exhaustive_search()
       if path_timeout:
         signal.signal(signal.SIGALRM, _alarm)
         signal.setitimer(signal.ITIMER_REAL, path_timeout)
